@@ -1917,7 +1917,7 @@ class Interp:
         if self.ctx.call_depth > 80:
             raise Unsupported("call depth > 80: " + " > ".join(self.ctx.call_stack[-12:]))
         try:
-            self.exec_block(fv.node.body, env)
+            self.exec_block(_exec_body(fv), env)
         except ReturnSig as r:
             return r.value
         finally:
@@ -2045,6 +2045,31 @@ def _join_dtype(a, b):
     if a == b:
         return a
     return "int"
+
+
+def _exec_body(fv):
+    """The statements executed for a call.  A body that ENDS in `if c: return a` + `return b` (or if / else with a return
+    in each arm), a and b free of calls with effects, is executed as `return a if c else b`: the same function (one arm
+    is evaluated, chosen by c), but a conditional EXPRESSION can be merged into an if-then-else term where the
+    statement form would fork the path - a helper of this shape called once per month would otherwise cost 2^years paths."""
+    body = getattr(fv, "_exec_body_cache", None)
+    if body is not None:
+        return body
+    body = list(fv.node.body)
+    a = b = test = None
+    if len(body) >= 2 and isinstance(body[-2], ast.If) and not body[-2].orelse and len(body[-2].body) == 1 \
+            and isinstance(body[-2].body[0], ast.Return) and isinstance(body[-1], ast.Return):
+        test, a, b, cut = body[-2].test, body[-2].body[0].value, body[-1].value, 2
+    elif body and isinstance(body[-1], ast.If) and len(body[-1].body) == 1 and len(body[-1].orelse) == 1 \
+            and isinstance(body[-1].body[0], ast.Return) and isinstance(body[-1].orelse[0], ast.Return):
+        test, a, b, cut = body[-1].test, body[-1].body[0].value, body[-1].orelse[0].value, 1
+    if test is not None and a is not None and b is not None and _is_pure(a) and _is_pure(b):
+        ret = ast.Return(value=ast.IfExp(test=test, body=a, orelse=b))
+        ast.copy_location(ret, body[-cut])
+        ast.copy_location(ret.value, body[-cut])
+        body = body[:-cut] + [ret]
+    fv._exec_body_cache = body
+    return body
 
 
 _PURE_NAMES = {"round", "print", "str", "float", "int", "bool", "min", "max", "abs", "len", "isinstance", "sum", "range", "list", "tuple"}
